@@ -233,10 +233,39 @@ ssize_t write(int fd, const void *buf, size_t n) {
     REAL(write)
     if (fd == MARK_FD) {
         pthread_mutex_lock(&mu);
-        char t[512];
+        char t[9000];
         size_t m = n < sizeof t - 1 ? n : sizeof t - 1;
         memcpy(t, buf, m);
         t[m] = 0;
+        if (strncmp(t, "CTL ", 4) == 0) {
+            // (re)configure: "CTL <crash_at> <fail_at> <errno> <root>\t<log>"  (used by the fork server's children)
+            long ca = -1, fa = -1;
+            int en = EIO, off = 0;
+            if (sscanf(t + 4, "%ld %ld %d %n", &ca, &fa, &en, &off) >= 3) {
+                char *paths = t + 4 + off;
+                char *tab = strchr(paths, '\t');
+                if (tab) {
+                    *tab = 0;
+                    strncpy(root, paths, sizeof(root) - 1);
+                    root[sizeof(root) - 1] = 0;
+                    rootlen = strlen(root);
+                    while (rootlen > 1 && root[rootlen - 1] == '/') root[--rootlen] = 0;
+                    if (logfd >= 0) syscall(SYS_close, logfd);
+                    logfd = tab[1] ? (int)syscall(SYS_openat, AT_FDCWD, tab + 1, O_WRONLY | O_CREAT | O_APPEND | O_CLOEXEC, 0644) : -1;
+                    crash_at = ca;
+                    fail_at = fa;
+                    fail_errno = en;
+                    seq = mseq = elig = 0;
+                    armed = 0;
+                    for (int i = 0; i < MAXFD; i++) {
+                        free(fdpath[i]);
+                        fdpath[i] = NULL;
+                    }
+                }
+            }
+            pthread_mutex_unlock(&mu);
+            return (ssize_t)n;
+        }
         if (strcmp(t, "ARM") == 0) armed = 1;
         if (strcmp(t, "DISARM") == 0) armed = 0;
         seq++;
